@@ -19,6 +19,7 @@ def ref_of_content(c, patched_data=None):
 
 class C01(PropertyCheck):
     pid = "C01"
+    source_tables = ["BIN_HEADER"]   # tables / constants regenerated from /repo's source (gen/srctables.py)
     release_too = False
     rule = ("streams: (A) archives built through the public API from random well-formed contents (sizes 0..256 quick / ..16384 thorough, "
             "unaligned lengths, labels on the end address, several labels per address, strings equal to label names, empty strings, "
